@@ -124,8 +124,8 @@ theorem detect_points_multi (epoch : Rat) (sigs : List SigDef) (hasSink : String
 
 /-- two signals sharing the tag `v` (one delta, one scalar) and an event signal with a date -/
 def exSigs : List SigDef :=
-  [⟨"d", "v", .delta, .deltasecs⟩, ⟨"s", "v", .scalar, .deltasecs⟩, ⟨"e", "e", .event, .rfc3339⟩,
-   ⟨"unwatched", "v", .scalar, .deltasecs⟩]
+  [⟨"d", "v", .delta, .deltasecs, 0⟩, ⟨"s", "v", .scalar, .deltasecs, 0⟩, ⟨"e", "e", .event, .rfc3339, 0⟩,
+   ⟨"unwatched", "v", .scalar, .deltasecs, 0⟩]
 
 def exSink : String → Bool := fun n => n != "unwatched"
 
@@ -134,13 +134,13 @@ def exLines : List (List Char) :=
    "2020-01-01T00:00:07.25Z e=hello".toList, "2020-13-01T00:00:07Z e=x".toList, "15 v=4".toList]
 
 /-- the hypotheses of `detect_points` hold for the delta signal of the example -/
-example : exSink "d" = true ∧ exSigs.filter (fun x => x.name == "d") = [⟨"d", "v", .delta, .deltasecs⟩] := by
+example : exSink "d" = true ∧ exSigs.filter (fun x => x.name == "d") = [⟨"d", "v", .delta, .deltasecs, 0⟩] := by
   decide
 
 example : (exSigs.map (·.name)).Nodup := by decide
 
 /-- … and the points are non-trivial: three deltas 3, 2, −1; the malformed `oops` is dropped -/
-example : pointsOf 1577836800 ⟨"d", "v", .delta, .deltasecs⟩ 0 exLines =
+example : pointsOf 1577836800 ⟨"d", "v", .delta, .deltasecs, 0⟩ 0 exLines =
     [⟨.at (25/2), .num 3⟩, ⟨.at 13, .num 2⟩, ⟨.at 15, .num (-1)⟩] := by decide +kernel
 
 /-- the model of `detectSignals` on the same lines (both sides of `detect_points_values`) -/
@@ -164,7 +164,7 @@ example : samplesOf "bob" "unwatched" (detectAll 1577836800 exSigs exSink "bob" 
   detect_no_sink _ _ _ _ _ (by decide) _ _
 
 /-- uniqueness of the name is needed: a name declared twice yields two samples per line -/
-example : (samplesOf "bob" "s" (detectLine 0 [⟨"s", "v", .scalar, .now⟩, ⟨"s", "v", .scalar, .now⟩]
+example : (samplesOf "bob" "s" (detectLine 0 [⟨"s", "v", .scalar, .now, 0⟩, ⟨"s", "v", .scalar, .now, 0⟩]
       (fun _ => true) "bob" [] "v=1".toList).2).length = 2 := by decide +kernel
 
 /-! ## Part 2 — the value and the time stamp of a point -/
@@ -203,7 +203,7 @@ theorem delta_value_succ (epoch : Rat) (sd : SigDef) (lines : List (List Char)) 
   simp only [Option.map_some, List.getElem?_cons_succ, List.getElem?_map, h0]
   rfl
 
-example : (exLines.filterMap (rawOf 0 ⟨"d", "v", .delta, .deltasecs⟩)) =
+example : (exLines.filterMap (rawOf 0 ⟨"d", "v", .delta, .deltasecs, 0⟩)) =
     [(.at (25/2), 3), (.at 13, 5), (.at 15, 4)] := by decide +kernel
 
 /-- **event_text**: the points of an event signal are, line by line, the captured text under the
@@ -242,14 +242,14 @@ theorem delta_value_line (epoch : Rat) (sd : SigDef) (last : Rat) (line v : List
 
 /-- the captured text is what follows `<tag>=` up to the end of the line, non-empty and free of
 white space; before the tag there is nothing (ts_now) or the time stamp and one blank -/
-theorem captured_text (epoch : Rat) (sd : SigDef) (line v : List Char) (st : Option Stamp)
-    (hm : matchSig epoch sd line = some (st, v)) :
+theorem captured_text_rec (epoch : Rat) (sd : SigDef) (line v : List Char) (st : Option Stamp)
+    (hm : matchRec epoch sd line = some (st, v)) :
     v ≠ [] ∧ v.all (fun c => !isSp c) = true ∧
     ∃ pre, line = pre ++ (sd.tag.toList ++ '=' :: v) ∧
       (sd.ts = .now → pre = []) ∧
       (sd.ts = .deltasecs ∨ sd.ts = .rfc3339 → pre = line.takeWhile (· != ' ') ++ [' ']) ∧
       (sd.ts = .log → pre = line.take 22 ++ [' ']) := by
-  unfold matchSig at hm
+  unfold matchRec at hm
   cases hts : sd.ts <;> simp only [hts] at hm
   · -- now
     cases hmt : matchTagged sd.tag line with
@@ -306,17 +306,48 @@ theorem captured_text (epoch : Rat) (sd : SigDef) (line v : List Char) (st : Opt
         simpa using this
     · cases hm
 
+/-- the captured text, for a pattern of any position: the record is the whole line, the part
+before the first ` | ` or the part after the last one -/
+theorem captured_text (epoch : Rat) (sd : SigDef) (line v : List Char) (st : Option Stamp)
+    (hm : matchSig epoch sd line = some (st, v)) :
+    ∃ rec, recordOf sd.pos line = some rec ∧
+    v ≠ [] ∧ v.all (fun c => !isSp c) = true ∧
+    ∃ pre, rec = pre ++ (sd.tag.toList ++ '=' :: v) ∧
+      (sd.ts = .now → pre = []) ∧
+      (sd.ts = .deltasecs ∨ sd.ts = .rfc3339 → pre = rec.takeWhile (· != ' ') ++ [' ']) ∧
+      (sd.ts = .log → pre = rec.take 22 ++ [' ']) := by
+  unfold matchSig at hm
+  cases hrec : recordOf sd.pos line with
+  | none => simp [hrec] at hm
+  | some rec =>
+    simp only [hrec, Option.bind_some] at hm
+    exact ⟨rec, rfl, captured_text_rec epoch sd rec v st hm⟩
+
+/-- two records of one line: each pattern reads its own record (non-vacuity: different dates) -/
+example : recordOf 1 "2020-01-01T00:00:01Z a=x | 2020-01-01T00:00:03Z b=2".toList
+      = some "2020-01-01T00:00:01Z a=x".toList ∧
+    recordOf 2 "2020-01-01T00:00:01Z a=x | 2020-01-01T00:00:03Z b=2".toList
+      = some "2020-01-01T00:00:03Z b=2".toList ∧
+    recordOf 2 "no separator".toList = none := by decide +kernel
+
+example : sampleOf 1577836800 ⟨"b", "b", .scalar, .rfc3339, 2⟩ 0
+      "2020-01-01T00:00:01Z a=x | 2020-01-01T00:00:03Z b=2".toList = (0, some ⟨.at 3, .num 2⟩) ∧
+    sampleOf 1577836800 ⟨"a", "a", .event, .rfc3339, 1⟩ 0
+      "2020-01-01T00:00:01Z a=x | 2020-01-01T00:00:03Z b=2".toList = (0, some ⟨.at 1, .str "x"⟩) := by
+  decide +kernel
+
 /-- **ts_kind**: the stamp of a point is the reception time for `ts_now`; the parsed captured
 seconds since the start of the play for `ts_deltasecs`; the captured date minus the epoch of the
 play (i.e. that date, on the play's clock) for `ts_rfc3339` and `ts_log`. -/
 theorem ts_kind (epoch : Rat) (sd : SigDef) (last last' : Rat) (line : List Char) (p : Point)
     (h : sampleOf epoch sd last line = (last', some p)) :
+    ∃ rec, recordOf sd.pos line = some rec ∧
     (sd.ts = .now → p.stamp = .now) ∧
-    (sd.ts = .deltasecs → ∃ secs, isDeltaSecs (line.takeWhile (· != ' ')) = true ∧
-        parseFloat (line.takeWhile (· != ' ')) = some secs ∧ p.stamp = .at secs) ∧
-    (sd.ts = .rfc3339 → ∃ u, parseRfc3339 (line.takeWhile (· != ' ')) = some (some u) ∧
+    (sd.ts = .deltasecs → ∃ secs, isDeltaSecs (rec.takeWhile (· != ' ')) = true ∧
+        parseFloat (rec.takeWhile (· != ' ')) = some secs ∧ p.stamp = .at secs) ∧
+    (sd.ts = .rfc3339 → ∃ u, parseRfc3339 (rec.takeWhile (· != ' ')) = some (some u) ∧
         p.stamp = .at (u - epoch)) ∧
-    (sd.ts = .log → ∃ u, parseLogTs (line.take 22) = some (some u) ∧ p.stamp = .at (u - epoch)) := by
+    (sd.ts = .log → ∃ u, parseLogTs (rec.take 22) = some (some u) ∧ p.stamp = .at (u - epoch)) := by
   -- the sample comes from a match with an accepted stamp, which is the point's stamp
   have hm : ∃ v, matchSig epoch sd line = some (some p.stamp, v) := by
     unfold sampleOf at h
@@ -336,6 +367,16 @@ theorem ts_kind (epoch : Rat) (sd : SigDef) (last last' : Rat) (line : List Char
         · rw [← h.2]
   obtain ⟨v, hm⟩ := hm
   unfold matchSig at hm
+  cases hrec : recordOf sd.pos line with
+  | none => simp [hrec] at hm
+  | some line' =>
+  simp only [hrec, Option.bind_some] at hm
+  refine ⟨line', rfl, ?_⟩
+  clear hrec h
+  revert hm
+  generalize line' = line
+  intro hm
+  unfold matchRec at hm
   refine ⟨fun hts => ?_, fun hts => ?_, fun hts => ?_, fun hts => ?_⟩ <;> simp only [hts] at hm
   · cases hmt : matchTagged sd.tag line <;> simp [hmt] at hm
     exact hm.1.symm
@@ -384,15 +425,15 @@ example : parseRfc3339 "yesterday".toList = none := by decide +kernel
 example : parseLogTs "200101 00:00:07.250000".toList = some (some (1577836800 + 1/4 + 7)) := by
   decide +kernel
 
-example : sampleOf 0 ⟨"s", "v", .scalar, .now⟩ 0 "v=3".toList = (0, some ⟨.now, .num 3⟩) := by
+example : sampleOf 0 ⟨"s", "v", .scalar, .now, 0⟩ 0 "v=3".toList = (0, some ⟨.now, .num 3⟩) := by
   decide +kernel
-example : sampleOf 0 ⟨"s", "v", .scalar, .deltasecs⟩ 0 "12.5 v=3".toList =
+example : sampleOf 0 ⟨"s", "v", .scalar, .deltasecs, 0⟩ 0 "12.5 v=3".toList =
     (0, some ⟨.at (25/2), .num 3⟩) := by decide +kernel
-example : sampleOf 1577836800 ⟨"e", "e", .event, .rfc3339⟩ 0 "2020-01-01T00:00:07.25Z e=hello".toList =
+example : sampleOf 1577836800 ⟨"e", "e", .event, .rfc3339, 0⟩ 0 "2020-01-01T00:00:07.25Z e=hello".toList =
     (0, some ⟨.at (29/4), .str "hello"⟩) := by decide +kernel
-example : sampleOf 1577836800 ⟨"e", "e", .event, .log⟩ 0 "200101 00:00:07.250000 e=hello".toList =
+example : sampleOf 1577836800 ⟨"e", "e", .event, .log, 0⟩ 0 "200101 00:00:07.250000 e=hello".toList =
     (0, some ⟨.at (29/4), .str "hello"⟩) := by decide +kernel
-example : sampleOf 0 ⟨"d", "v", .delta, .now⟩ 2 "v=5".toList = (5, some ⟨.now, .num 3⟩) := by
+example : sampleOf 0 ⟨"d", "v", .delta, .now, 0⟩ 2 "v=5".toList = (5, some ⟨.now, .num 3⟩) := by
   decide +kernel
 
 /-! ## Malformed captures drop the point, never anything else -/
@@ -452,15 +493,15 @@ theorem nomatch_no_point (epoch : Rat) (sd : SigDef) (last : Rat) (line : List C
   simp [sampleOf, h]
 
 /-- `Malformed` is satisfiable both ways: a rejected date, a rejected number -/
-example : Malformed 0 ⟨"e", "e", .event, .rfc3339⟩ "2020-13-01T00:00:07Z e=x".toList :=
+example : Malformed 0 ⟨"e", "e", .event, .rfc3339, 0⟩ "2020-13-01T00:00:07Z e=x".toList :=
   Or.inl ⟨"x".toList, by decide +kernel⟩
-example : Malformed 0 ⟨"d", "v", .delta, .deltasecs⟩ "14 v=oops".toList :=
+example : Malformed 0 ⟨"d", "v", .delta, .deltasecs, 0⟩ "14 v=oops".toList :=
   Or.inr ⟨by decide, some (.at 14), "oops".toList, by decide +kernel, by decide +kernel⟩
 
 /-- the malformed line of the example removed: the same points -/
-example : pointsOf 0 ⟨"d", "v", .delta, .deltasecs⟩ 0
+example : pointsOf 0 ⟨"d", "v", .delta, .deltasecs, 0⟩ 0
       ["12.5 v=3".toList, "13 v=5".toList, "14 v=oops".toList, "15 v=4".toList] =
-    pointsOf 0 ⟨"d", "v", .delta, .deltasecs⟩ 0 ["12.5 v=3".toList, "13 v=5".toList, "15 v=4".toList] :=
+    pointsOf 0 ⟨"d", "v", .delta, .deltasecs, 0⟩ 0 ["12.5 v=3".toList, "13 v=5".toList, "15 v=4".toList] :=
   (malformed_drops_point_only 0 _ 0 ["12.5 v=3".toList, "13 v=5".toList] ["15 v=4".toList] _
     (Or.inr ⟨by decide, some (.at 14), "oops".toList, by decide +kernel, by decide +kernel⟩)).2.1
 
@@ -602,7 +643,7 @@ example : rowsFor ⟨"bob", "d"⟩ (run exCfg (pipeEvs 1577836800 exSigs exSink 
     = [(25/2, .delta, .sc (.num 3)), (13, .delta, .sc (.num 2)), (15, .delta, .sc (.num (-1)))] := by
   decide +kernel
 
-example : rowsOf 0 ⟨"n", "v", .scalar, .now⟩ 0 [(100, "v=3".toList), (101, "v=x".toList), (102, "v=4".toList)]
+example : rowsOf 0 ⟨"n", "v", .scalar, .now, 0⟩ 0 [(100, "v=3".toList), (101, "v=x".toList), (102, "v=4".toList)]
     = [(100, .num 3), (102, .num 4)] := by decide +kernel
 
 /-! ## one row per watching observer -/
